@@ -75,8 +75,9 @@ def quiet_violation(I, st, elems, allow_enter):
     return None
 
 
-def path_rules(col, gcode, paths, I):
-    declare(col)
+def path_rules(col, gcode, paths, I, own=True):
+    if own:
+        declare(col)
     for p in paths:
         f = Facts(p, I)
         if f.raised:
@@ -151,6 +152,10 @@ def path_rules(col, gcode, paths, I):
                 col.report('C01.R5', 'ExcludeRegionState.enterExcludedRegion', '%s enters without excluded point' % gcode,
                            'an episode is opened although no point of the move tested inside a region', detail=detail)
         # ---- R6
+        if not (called_plm or gcode in ('G0', 'G1')):
+            from .pathfacts import exact_tracking
+            for (fn, construct, msg) in exact_tracking(f, gcode):    # an arc the firmware executes, not handed on
+                col.report('C01.R6', fn, construct, msg, detail=detail)
         if called_plm or gcode in ('G0', 'G1'):
             col.instance('C01.R6', sig)
             for axis, letter in (('X_AXIS', 'X'), ('Y_AXIS', 'Y'), ('Z_AXIS', 'Z')):
@@ -263,6 +268,10 @@ def run(ctx, tier):
     from .entries import make_interp
     from .rules_c08 import native_args_rule
     native_args_rule(ctx, make_interp(ctx.model), 'C01.R8', 'C01.R8')
+    from .rules_c08 import frame_premise
+    frame_premise(ctx)
+    from .rules_c08 import state_code_premise
+    state_code_premise(ctx)
     # "inside a region" means the closed rectangle / disc: the point predicates and the corner normalisation they rely on
     from . import rules_c17
     for rid in ('C17.R1', 'C17.R2'):
